@@ -223,3 +223,197 @@ example : ruleSpellCheck spellEnv0 c!"xx" [⟨⟨0, 2⟩, .word⟩] = .error .un
 example : ruleSpellCheck spellEnv0 c!"teh" [⟨⟨0, 4⟩, .word⟩] = .error .sliceOOB := by decide
 
 end Harper.C01
+
+namespace Harper.C01
+open Harper Harper.Chunks Harper.Rules Harper.Leaves Harper.PatternRules Harper.MergeRules
+
+/-! ## w26: document-level link
+
+The blanket `impl Linter for L: PatternLinter` (`for chunk in document.iter_chunks() { run_on_chunk(…) }`) in the two models:
+`Pat.lintDoc` (kind codes; lists `(start, len)` at DOCUMENT token offsets) and `overPieces iterChunks` of `runOnChunkGo`
+(tokens; what `PRule.rule` runs, with the rule's `match_to_lint`). -/
+
+/-- **the token-level document run does what the kind-code document run lists**: when matcher and kind-code pattern agree
+on the suffixes of every chunk of the document and `Pat.lintDoc` returns the matches `ms`, the token-level run is
+`match_to_lint` on `&tokens[s..s + n]` — slices of the WHOLE token vector — for each `(s, n)` of `ms`, in order. -/
+theorem lintDoc_link_ok (m : Matcher) (p : Pat) (src : List Char) (toks : List Tok)
+    (hag : ∀ c ∈ Chunks.iterChunks toks, AgreeOn m p tokCode src c)
+    (f : List Char → List Tok → Except Panic (List RuleLint))
+    (ms : List (Nat × Nat)) (h : Pat.lintDoc p (toks.map tokCode) = .ok ms) :
+    overPieces Chunks.iterChunks (fun src chunk => runOnChunkGo m f src 0 chunk) src toks = lintMatches f src toks ms := by
+  unfold Pat.lintDoc at h
+  rw [← iterChunks_tok_code] at h
+  have := (lintChunks_sim m p tokCode src f (Chunks.iterChunks toks) [] hag).1 ms h
+  rw [iterChunks_tok_flatten, List.nil_append] at this
+  exact this
+
+/-- … and when the kind-code document run panics, so does the token-level one (with the same panic if `match_to_lint` is
+total) -/
+theorem lintDoc_link_error (m : Matcher) (p : Pat) (src : List Char) (toks : List Tok)
+    (hag : ∀ c ∈ Chunks.iterChunks toks, AgreeOn m p tokCode src c)
+    (f : List Char → List Tok → Except Panic (List RuleLint))
+    (e : Panic) (h : Pat.lintDoc p (toks.map tokCode) = .error e) :
+    ∃ e', overPieces Chunks.iterChunks (fun src chunk => runOnChunkGo m f src 0 chunk) src toks = .error e' ∧
+      ((∀ l, ∃ r, f src l = .ok r) → e' = e) := by
+  unfold Pat.lintDoc at h
+  rw [← iterChunks_tok_code] at h
+  exact (lintChunks_sim m p tokCode src f (Chunks.iterChunks toks) [] hag).2 e h
+
+/-- both cases in one equation, for a total `match_to_lint` -/
+theorem lintDoc_link (m : Matcher) (p : Pat) (src : List Char) (toks : List Tok)
+    (hag : ∀ c ∈ Chunks.iterChunks toks, AgreeOn m p tokCode src c)
+    (f : List Char → List Tok → Except Panic (List RuleLint)) (hf : ∀ l, ∃ r, f src l = .ok r) :
+    overPieces Chunks.iterChunks (fun src chunk => runOnChunkGo m f src 0 chunk) src toks =
+      match Pat.lintDoc p (toks.map tokCode) with
+      | .ok ms => lintMatches f src toks ms
+      | .error e => .error e := by
+  cases h : Pat.lintDoc p (toks.map tokCode) with
+  | ok ms => exact lintDoc_link_ok m p src toks hag f ms h
+  | error e =>
+    obtain ⟨e', he', h'⟩ := lintDoc_link_error m p src toks hag f e h
+    rw [he', h' hf]
+
+/-- **`lintDoc_safe` carried over to the token level**: a matcher that agrees with a contract-keeping kind-code pattern makes
+the document run `match_to_lint` over non-empty, in-range, increasing and pairwise disjoint token slices of the document
+— no panic of `run_on_chunk` or of the chunk iterator -/
+theorem lintDoc_link_safe (m : Matcher) (p : Pat) (hp : Pat.Contract p) (src : List Char) (toks : List Tok)
+    (hag : ∀ c ∈ Chunks.iterChunks toks, AgreeOn m p tokCode src c)
+    (f : List Char → List Tok → Except Panic (List RuleLint)) :
+    ∃ ms, overPieces Chunks.iterChunks (fun src chunk => runOnChunkGo m f src 0 chunk) src toks = lintMatches f src toks ms ∧
+      (∀ x ∈ ms, 1 ≤ x.2 ∧ x.1 + x.2 ≤ toks.length) ∧
+      ms.Pairwise (fun a b => a.1 + a.2 ≤ b.1) := by
+  obtain ⟨ms, hms, hb, hd⟩ := lintDoc_safe p hp (toks.map tokCode)
+  refine ⟨ms, lintDoc_link_ok m p src toks hag f ms hms, ?_, hd⟩
+  intro x hx
+  have := hb x hx
+  rwa [List.length_map] at this
+
+/-- the same for a shipped-rule shape: **`PRule.rule env r`** (`Model/PatternRules.lean`; its matcher is `r.pat.matcher env`,
+its `match_to_lint` is `r.spec.run env`) -/
+theorem pruleRule_link_ok (env : Env) (r : PRule) (p : Pat) (src : List Char) (toks : List Tok)
+    (hag : ∀ c ∈ Chunks.iterChunks toks, AgreeOn (r.pat.matcher env) p tokCode src c)
+    (ms : List (Nat × Nat)) (h : Pat.lintDoc p (toks.map tokCode) = .ok ms) :
+    PRule.rule env r src toks = lintMatches (r.spec.run env) src toks ms :=
+  lintDoc_link_ok (r.pat.matcher env) p src toks hag (r.spec.run env) ms h
+
+theorem pruleRule_link_error (env : Env) (r : PRule) (p : Pat) (src : List Char) (toks : List Tok)
+    (hag : ∀ c ∈ Chunks.iterChunks toks, AgreeOn (r.pat.matcher env) p tokCode src c)
+    (e : Panic) (h : Pat.lintDoc p (toks.map tokCode) = .error e) :
+    ∃ e', PRule.rule env r src toks = .error e' ∧ ((∀ l, ∃ ls, r.spec.run env src l = .ok ls) → e' = e) :=
+  lintDoc_link_error (r.pat.matcher env) p src toks hag (r.spec.run env) e h
+
+theorem pruleRule_link_safe (env : Env) (r : PRule) (p : Pat) (hp : Pat.Contract p) (src : List Char) (toks : List Tok)
+    (hag : ∀ c ∈ Chunks.iterChunks toks, AgreeOn (r.pat.matcher env) p tokCode src c) :
+    ∃ ms, PRule.rule env r src toks = lintMatches (r.spec.run env) src toks ms ∧
+      (∀ x ∈ ms, 1 ≤ x.2 ∧ x.1 + x.2 ≤ toks.length) ∧
+      ms.Pairwise (fun a b => a.1 + a.2 ≤ b.1) :=
+  lintDoc_link_safe (r.pat.matcher env) p hp src toks hag (r.spec.run env)
+
+/-- **non-vacuity of `lintDoc_link_ok` / `lintDoc_link` / `lintDoc_link_safe`**: `word ws word` (`wordWsWord_agree`) over the
+two-chunk document `a b, c d.` (9 tokens; chunks `a b,` and ` c d.`): the kind-code run lists `(0, 3), (5, 3)` at document
+offsets, and the token-level run hands the recording `match_to_lint` tokens 0..3 and 5..8 of the document -/
+example :
+    let toks : List Tok := [⟨⟨0, 1⟩, .word⟩, ⟨⟨1, 2⟩, .space 1⟩, ⟨⟨2, 3⟩, .word⟩, ⟨⟨3, 4⟩, .punct .Comma⟩, ⟨⟨4, 5⟩, .space 1⟩,
+      ⟨⟨5, 6⟩, .word⟩, ⟨⟨6, 7⟩, .space 1⟩, ⟨⟨7, 8⟩, .word⟩, ⟨⟨8, 9⟩, .punct .Period⟩]
+    let m : Matcher := seqPat [kindAtom Kind.isWord, whitespaceAtom, kindAtom Kind.isWord]
+    let p : Pat := .seq (.ofList [.leaf 0, .whitespace, .leaf 0])
+    (∀ c ∈ Chunks.iterChunks toks, AgreeOn m p tokCode [] c) ∧ Pat.Contract p ∧ (∀ l, ∃ r, recordMatch [] l = .ok r) ∧
+    (Chunks.iterChunks toks).length = 2 ∧
+    Pat.lintDoc p (toks.map tokCode) = .ok [(0, 3), (5, 3)] ∧
+    overPieces Chunks.iterChunks (fun src chunk => runOnChunkGo m recordMatch src 0 chunk) [] toks =
+      .ok [⟨⟨0, 3⟩, [], 0, 3⟩, ⟨⟨5, 8⟩, [], 0, 3⟩] ∧
+    lintMatches recordMatch [] toks [(0, 3), (5, 3)] = .ok [⟨⟨0, 3⟩, [], 0, 3⟩, ⟨⟨5, 8⟩, [], 0, 3⟩] := by
+  refine ⟨fun c _ => (wordWsWord_agree []).agreeOn c, by simp [Pat.Contract, Pat.ContractL, PatList.ofList],
+    fun l => ⟨_, rfl⟩, by decide, by decide, by decide, by decide⟩
+
+/-- the panic case at document level (`lintDoc_link_error`): a leaf that answers 2 on a word — the second chunk ends in a
+word, both document runs panic in `&chunk[c..c + n]` -/
+example :
+    let toks : List Tok := [⟨⟨0, 1⟩, .punct .Comma⟩, ⟨⟨1, 2⟩, .space 1⟩, ⟨⟨2, 3⟩, .word⟩]
+    let m : Matcher := fun _ ts => .ok (if (ts.head?.map (·.kind.isWord)).getD false then 2 else 0)
+    let p : Pat := .fn (fun ks => if ks.head? = some 0 then 2 else 0)
+    (∀ c ∈ Chunks.iterChunks toks, AgreeOn m p tokCode [] c) ∧
+    Pat.lintDoc p (toks.map tokCode) = .error .sliceOOB ∧
+    overPieces Chunks.iterChunks (fun src chunk => runOnChunkGo m recordMatch src 0 chunk) [] toks = .error .sliceOOB := by
+  refine ⟨?_, by decide, by decide⟩
+  intro c _ k _
+  show _ = Pat.matchLen (.fn _) _
+  simp only [Pat.matchLen]
+  cases c.drop k with
+  | nil => rfl
+  | cons t ts =>
+    simp only [List.head?_cons, Option.map_some, Option.getD_some, List.map_cons, tokCode, isWord_code]
+    congr 1
+    simp
+
+/-! ### `Agree` for every combinator of the kind-code model -/
+
+/-- **`RepeatingPattern` in the two models**: the different fuel conventions (`len + 1` in `Condense.repPat`, `len + 2` in
+`Pat.matchLen (.rep …)`) and the different place of the slice panic (at once / one iteration later) do not show: a child that
+agrees makes repetitions that agree, contract or not (`Rules.repPat_agree`, `repGo_agree`) -/
+theorem rep_agree (inner : Matcher) (p : Pat) (src : List Char) (h : Agree inner p tokCode src) (req : Nat) :
+    Agree (repPat inner req) (.rep p req) tokCode src := repPat_agree inner p tokCode src h req
+
+/-- … also when the child breaks the contract: both loops end in the slice panic -/
+example : repPat (fun _ _ => .ok 2) 0 [] [⟨⟨0, 1⟩, .word⟩] = .error .sliceOOB ∧
+    Pat.matchLen (.rep (.fn (fun _ => 2)) 0) [0] = .error .sliceOOB ∧
+    repPat (kindAtom Kind.isWord) 1 [] [⟨⟨0, 1⟩, .word⟩, ⟨⟨1, 2⟩, .word⟩, ⟨⟨2, 3⟩, .space 1⟩] = .ok 2 ∧
+    Pat.matchLen (.rep (.leaf 0) 1) [0, 0, 1] = .ok 2 := by decide
+
+/-- a tree with every combinator of the kind-code model — sequence, repetition, alternative, `All`, `Invert`,
+`ConsumesRemainingPattern`, `AnyPattern`, whitespace, kind tests — agrees with its kind-code twin on EVERY token slice:
+`Agree` is derivable, not only checkable -/
+theorem allCombinators_agree (src : List Char) :
+    Agree
+      (seqPat [kindAtom Kind.isWord, whitespaceAtom,
+        eitherPat [repPat (kindAtom Kind.isWord) 1, allPat [invertPat (kindAtom Kind.isWord), anyAtom]]])
+      (.seq (.ofList [.leaf 0, .whitespace,
+        .either (.ofList [.rep (.leaf 0) 1, .all (.ofList [.invert (.leaf 0), .any])])]))
+      tokCode src := by
+  have hw := kindAtom_isWord_agree src
+  have hrep := repPat_agree _ _ tokCode src hw 1
+  have hall : Agree (allPat [invertPat (kindAtom Kind.isWord), anyAtom]) (.all (.ofList [.invert (.leaf 0), .any])) tokCode src :=
+    allPat_agree tokCode src [(invertPat (kindAtom Kind.isWord), .invert (.leaf 0)), (anyAtom, .any)] (by
+      intro x hx
+      simp only [List.mem_cons, List.mem_nil_iff, or_false] at hx
+      rcases hx with rfl | rfl
+      · exact invertPat_agree _ _ tokCode src hw
+      · exact anyAtom_agree tokCode src)
+  have heither := eitherPat_agree tokCode src
+    [(repPat (kindAtom Kind.isWord) 1, .rep (.leaf 0) 1),
+     (allPat [invertPat (kindAtom Kind.isWord), anyAtom], .all (.ofList [.invert (.leaf 0), .any]))] (by
+      intro x hx
+      simp only [List.mem_cons, List.mem_nil_iff, or_false] at hx
+      rcases hx with rfl | rfl
+      · exact hrep
+      · exact hall)
+  have hc : MContract (eitherPat [repPat (kindAtom Kind.isWord) 1, allPat [invertPat (kindAtom Kind.isWord), anyAtom]]) src := by
+    intro toks n hn
+    have := heither toks
+    simp only [List.map_cons, List.map_nil] at this
+    rw [hn] at this
+    obtain ⟨n', hn', hle⟩ := matches_safe (.either (.ofList [.rep (.leaf 0) 1, .all (.ofList [.invert (.leaf 0), .any])]))
+      (by simp [Pat.Contract, Pat.ContractL, PatList.ofList]) (toks.map tokCode)
+    rw [hn'] at this
+    cases this
+    rwa [List.length_map] at hle
+  exact seqPat_agree tokCode src
+    [(kindAtom Kind.isWord, .leaf 0), (whitespaceAtom, .whitespace),
+     (eitherPat [repPat (kindAtom Kind.isWord) 1, allPat [invertPat (kindAtom Kind.isWord), anyAtom]],
+      .either (.ofList [.rep (.leaf 0) 1, .all (.ofList [.invert (.leaf 0), .any])]))] (by
+      intro x hx
+      simp only [List.mem_cons, List.mem_nil_iff, or_false] at hx
+      rcases hx with rfl | rfl | rfl
+      · exact ⟨hw, kindAtom_contract _ src⟩
+      · exact ⟨whitespaceAtom_agree src, whitespaceAtom_contract src⟩
+      · exact ⟨heither, hc⟩)
+
+/-- evaluated: `a bb` and `a .` both match whole (3 tokens), in both models -/
+example :
+    seqPat [kindAtom Kind.isWord, whitespaceAtom,
+      eitherPat [repPat (kindAtom Kind.isWord) 1, allPat [invertPat (kindAtom Kind.isWord), anyAtom]]] []
+      [⟨⟨0, 1⟩, .word⟩, ⟨⟨1, 2⟩, .space 1⟩, ⟨⟨2, 3⟩, .punct .Period⟩] = .ok 3 ∧
+    Pat.matchLen (.seq (.ofList [.leaf 0, .whitespace,
+      .either (.ofList [.rep (.leaf 0) 1, .all (.ofList [.invert (.leaf 0), .any])])])) [0, 1, 2] = .ok 3 := by decide
+
+end Harper.C01
